@@ -3,8 +3,8 @@
 Technique: bounded-exhaustive exploration (E-enum) of statements x tables on the real compiler and
 executor against the reference interpreter ``vt.ref.select``.
 
-Tables     ALL row sequences of length <= L over the row alphabet {k in NULL,'a','b'} x {v in NULL,v1,v2}
-           (820 tables for L <= 3, 7381 for L <= 4, 66430 for L <= 5), and over {k} x {m in 1,2} x {v}
+Tables     ALL row sequences of length <= L over the row alphabet {k in NULL,'a','b'} x {v in NULL, zero/empty, v1, v2}
+           (12 letters: 1885 tables for L <= 3, 22621 for L <= 4), and over {k} x {m in 1,2} x {v}
            (18 letters) for the two-key statements; the value column typed int, Decimal, str, date, bool.
            This contains empty tables, NULL groups, groups interleaved in source order, leading and
            trailing NULLs (first/last), duplicates.
@@ -41,9 +41,9 @@ D = decimal.Decimal
 A = ast
 
 VTYPES = {
-    'int': (int, [None, 1, 2]),
-    'decimal': (D, [None, D('1.5'), D('2')]),
-    'str': (str, [None, 'a', 'b']),
+    'int': (int, [None, 0, 1, 2]),
+    'decimal': (D, [None, D('0.00'), D('1.5'), D('2')]),
+    'str': (str, [None, '', 'a', 'b']),
     'date': (datetime.date, [None, datetime.date(2020, 1, 31), datetime.date(2020, 2, 1)]),
     'bool': (bool, [None, True, False]),
 }
@@ -52,15 +52,17 @@ MVALS = [1, 2]
 
 
 def seed_values(vt, seed):
+    """Boundary values (NULL, zero / empty string: falsy values are where `x or default` shortcuts go wrong)
+    are always present; the seed rotates the ordinary ones."""
     t, vals = VTYPES[vt]
     if vt == 'int':
         pool = [(1, 2), (2, 7), (-3, 1), (5, 12)]
         a, b = pool[seed % len(pool)]
-        return t, [None, a, b]
+        return t, [None, 0, a, b]
     if vt == 'decimal':
         pool = [(D('1.5'), D('2')), (D('0.50'), D('2.25')), (D('-1.5'), D('7.125'))]
         a, b = pool[seed % len(pool)]
-        return t, [None, a, b]
+        return t, [None, D('0.00'), a, b]
     return t, vals
 
 
@@ -74,6 +76,7 @@ def tables_1key(L, vt, seed):
 
 def tables_2key(L, vt, seed):
     t, vvals = seed_values(vt, seed)
+    vvals = [v for v in vvals if v is None or v]      # 18-letter alphabet: the zero is covered by the one-key tables
     alpha = list(itertools.product(KVALS, MVALS, vvals))
     for n in range(0, L + 1):
         for rows in itertools.product(alpha, repeat=n):
@@ -169,6 +172,10 @@ def shapes_2key():
         ('k-visible-m-hidden', mk([(k, None)], [k, m])),
         ('m-visible-k-hidden', mk([(m, None)], [m, k])),
         ('both-hidden', mk([], [k, m])),
+        ('dup-index-then-keys', mk([(k, None), (m, None)], [1, col('k'), col('m')])),
+        ('dup-name-then-index', mk([(k, None), (m, None)], [col('k'), 1, 2])),
+        ('dup-second-key', mk([(k, None), (m, None)], [k, m, 2])),
+        ('dup-alias-then-key', mk([(k, 'kk'), (m, None)], [col('kk'), 1, m])),
         ('k-and-mexpr', mk([(k, None), (m2, 'mm')], [k, col('mm')])),
         ('mexpr-hidden', mk([(k, None)], [k, A.Mod(col('m'), C(2))])),
     ]
@@ -398,7 +405,7 @@ def run(ctx):
     if ctx.quick:
         plan = [('int', False, 3), ('decimal', False, 2), ('str', False, 2), ('date', False, 2), ('bool', False, 2), ('int', True, 2)]
     else:
-        plan = [('int', False, 4), ('decimal', False, 4), ('str', False, 3), ('date', False, 3), ('bool', False, 3), ('int', True, 3), ('decimal', True, 2)]
+        plan = [('int', False, 4), ('decimal', False, 3), ('str', False, 3), ('date', False, 3), ('bool', False, 3), ('int', True, 3), ('decimal', True, 2)]
     acc = run_shards(sweep1, ctx.jobs, plan, ctx.seed)
     acc2 = run_shards(sweep2, ctx.jobs)
     n = acc.n
